@@ -936,6 +936,17 @@ func runECDSALoop(c *hl.Ctx, cs caseT) {
 // ---------------------------------------------------------------------------
 // reference-built objects -> library
 
+// leadingZeroXScalar is the first scalar >= from whose point has an X
+// coordinate with a leading zero octet.
+func leadingZeroXScalar(bits int, from int64) int64 {
+	w := joseref.CoordBytes(bits)
+	for d := from; ; d++ {
+		if x, _ := joseref.BasePoint(bits, big.NewInt(d)); leadingZero(x, w) {
+			return d
+		}
+	}
+}
+
 func refCompact(parts ...[]byte) string {
 	var p []string
 	for _, b := range parts {
@@ -962,10 +973,10 @@ func runRefJWS(c *hl.Ctx, cs caseT) {
 			panic(err)
 		}
 	case "ES":
-		// nonce k = the scalar whose point has a leading-zero X, so r has a
+		// nonce k = a scalar >= 1000 whose point has a leading-zero X, so r has a
 		// leading zero octet; for cs.Extra == "s" the payload is varied until s
 		// has one too (pure modular arithmetic, deterministic).
-		k := big.NewInt(keys.ec[a.curve][0].d)
+		k := big.NewInt(leadingZeroXScalar(a.curve, 1000))
 		d := keys.ec[a.curve][cs.KeyVar].priv.D
 		w := joseref.CoordBytes(a.curve)
 		for try := 0; ; try++ {
@@ -1430,15 +1441,15 @@ func checkJWK(c *hl.Ctx, k interface{}, kid, alg, use string, cs caseT) {
 // enumeration
 
 type planT struct {
-	jwsSizesTamper map[int]bool
-	jweSizesTamper map[int]bool
+	tamperSizesJWS []int
+	tamperSizesJWE []int
 	scanN          int64
 }
 
 func plan(c *hl.Ctx) planT {
-	p := planT{jwsSizesTamper: map[int]bool{0: true, 17: true}, jweSizesTamper: map[int]bool{0: true, 17: true}, scanN: 1024}
+	p := planT{tamperSizesJWS: []int{0, 17}, tamperSizesJWE: []int{0, 17}, scanN: 1024}
 	if c.Thorough() {
-		p.jwsSizesTamper[256] = true
+		p.tamperSizesJWS = []int{0, 1, 17, 256}
 		p.scanN = 16384
 	}
 	return p
@@ -1479,14 +1490,7 @@ func run(c *hl.Ctx) {
 						if c.Expired() {
 							return
 						}
-						cs := caseT{Part: "jws", Alg: string(a.name), Curve: a.curve, KeyVar: v, Size: n, Ser: ser, Nil: isNil}
-						if pl.jwsSizesTamper[n] && !isNil {
-							cs.Tamper = 2
-							if c.Quick() && !(n == 17 && ser == "json" && v == 0 && a.bits == 256) {
-								cs.Tamper = 1
-							}
-						}
-						runJWSCase(c, cs)
+						runJWSCase(c, caseT{Part: "jws", Alg: string(a.name), Curve: a.curve, KeyVar: v, Size: n, Ser: ser, Nil: isNil})
 					}
 				}
 			}
@@ -1504,12 +1508,50 @@ func run(c *hl.Ctx) {
 						if c.Expired() {
 							return
 						}
-						cs := caseT{Part: "jwe", Alg: string(r.alg.name), Curve: r.curve, KeyVar: r.variant, Enc: string(enc), Zip: zip, Size: n, Ser: ser}
-						if pl.jweSizesTamper[n] && (ser == "compact" || ser == "json+aad") && (c.Thorough() || r.variant == 0) {
-							cs.Tamper = 2
-							if c.Quick() && !(r.first && n == 17 && ser == "json+aad" && zip == "" && (enc == jose.A128CBC_HS256 || enc == jose.A128GCM)) {
-								cs.Tamper = 1
-							}
+						runJWECase(c, caseT{Part: "jwe", Alg: string(r.alg.name), Curve: r.curve, KeyVar: r.variant, Enc: string(enc), Zip: zip, Size: n, Ser: ser})
+					}
+				}
+			}
+		}
+	}
+	// ---- fault enumeration on fresh objects of the tamper cells (own running
+	// index, so that the heavy cells spread evenly over the shards)
+	for _, a := range sigAlgs {
+		for v := 0; v < a.nkeys; v++ {
+			for _, ser := range []string{"compact", "json"} {
+				for _, n := range pl.tamperSizesJWS {
+					if !mine() {
+						continue
+					}
+					if c.Expired() {
+						return
+					}
+					cs := caseT{Part: "jws", Alg: string(a.name), Curve: a.curve, KeyVar: v, Size: n, Ser: ser, Tamper: 2}
+					if c.Quick() && !(n == 17 && ser == "json" && v == 0 && a.bits == 256) {
+						cs.Tamper = 1
+					}
+					runJWSCase(c, cs)
+				}
+			}
+		}
+	}
+	for _, r := range recipients() {
+		if c.Quick() && r.variant != 0 {
+			continue
+		}
+		for _, enc := range encs {
+			for _, zip := range []string{"", "DEF"} {
+				for _, ser := range []string{"compact", "json+aad"} {
+					for _, n := range pl.tamperSizesJWE {
+						if !mine() {
+							continue
+						}
+						if c.Expired() {
+							return
+						}
+						cs := caseT{Part: "jwe", Alg: string(r.alg.name), Curve: r.curve, KeyVar: r.variant, Enc: string(enc), Zip: zip, Size: n, Ser: ser, Tamper: 2}
+						if c.Quick() && !(r.first && n == 17 && ser == "json+aad" && zip == "" && (enc == jose.A128CBC_HS256 || enc == jose.A128GCM)) {
+							cs.Tamper = 1
 						}
 						runJWECase(c, cs)
 					}
